@@ -16,7 +16,7 @@ class SQLParser(Parser):
         ('left', AND),
         ('right', UNOT),
         ('left', EQUALS, NEQUALS),
-        ('nonassoc', LESS, LEQ, GREATER, GEQ, IN, BETWEEN, IS, IS_NOT, LIKE),
+        ('nonassoc', LESS, LEQ, GREATER, GEQ, IN, BETWEEN, IS, IS_NOT, LIKE, NOT),  # NOT: the first token of `expr NOT IN expr`
         ('left', PLUS, MINUS),
         ('left', STAR, DIVIDE, MODULO),
         ('right', UMINUS),  # Unary minus operator, unary not
